@@ -16,7 +16,7 @@ use fvh::with_n;
 
 // ------------------------------------------------------------------------------------------------ generator
 
-fn esc(d: &str) -> String { d.replace('\n', "\\n") }
+fn esc(d: &str) -> String { d.replace('\\', "\\\\").replace('\n', "\\n").replace('\r', "\\r").replace('\t', "\\t") }
 
 fn cells(names: &[Option<String>]) -> String {
 	names.iter().map(|n| format!("\t{}", n.as_deref().unwrap_or(""))).collect()
@@ -85,32 +85,40 @@ fn cfg_for(r: &mut Rng, n: usize) -> MapCfg {
 }
 
 /// pushes the set outside the proved domain in one of the known ways
+/// comments that used to break the format (before fix a79b1fd); all inside the domain now
+const HARD_DOCS: &[&str] = &["x\\ny", "\\n", "a\\\\nb", "tab\there", "ends with cr\r", "cr\r\nlf", "\\", "n\\", "\\\nn", "\\t\\r\\\\", "\t", "\r", "\n",
+	"\\x unknown escape", "trailing \\\\", "\u{1f600}\\\u{1f600}", "a\tb\tc\r\n\r\n", ""];
+
+fn hard_docs(g: &mut GMappings, r: &mut Rng, out: &mut Out) {
+	for c in &mut g.classes {
+		if r.chance(1, 2) { c.doc = Some((*r.pick(HARD_DOCS)).to_owned()); }
+		for f in &mut c.fields { if r.chance(1, 2) { f.doc = Some((*r.pick(HARD_DOCS)).to_owned()); } }
+		for m in &mut c.methods {
+			if r.chance(1, 2) { m.doc = Some((*r.pick(HARD_DOCS)).to_owned()); }
+			for p in &mut m.params { if r.chance(1, 2) { p.doc = Some((*r.pick(HARD_DOCS)).to_owned()); } }
+		}
+	}
+	out.stats.hit("has:hard-docs");
+}
+
+/// pushes the set outside the proved domain in one of the known ways
 fn spoil(g: &mut GMappings, r: &mut Rng, out: &mut Out) {
-	let bad_docs = ["x\\ny", "\\n", "a\\\\nb", "tab\there", "ends with cr\r", "cr\r\nlf", "\\", "n\\", "\\\nn"];
-	match r.below(6) {
+	match r.below(4) {
 		0 => { g.doc = Some((*r.pick(&["top", "top\nlevel", ""])).to_owned()); out.stats.hit("spoil:toplevel-doc"); }
 		1 => {
-			if let Some(c) = g.classes.first_mut() { c.doc = Some((*r.pick(&bad_docs)).to_owned()); }
-			out.stats.hit("spoil:class-doc");
-		}
-		2 => {
-			for c in &mut g.classes { for m in &mut c.methods {
-				m.doc = Some((*r.pick(&bad_docs)).to_owned());
-				for p in &mut m.params { p.doc = Some((*r.pick(&bad_docs)).to_owned()); }
-			} }
-			out.stats.hit("spoil:member-doc");
-		}
-		3 => {
-			let bad = ["a\tb", "a\nb", "a\rb", "a\r", "a.b", "a;b", "[a", "a//b", "/a", "a/", "<x>", "a b"];
+			let bad = ["a\tb", "a\nb", "a\rb", "a\r", "a.b", "a;b", "[a", "a//b", "/a", "a/", "<x>", "a b", "B\nc\tC\tD"];
 			if let Some(c) = g.classes.first_mut() {
 				let k = r.below(c.names.len());
 				c.names[k] = Some((*r.pick(&bad)).to_owned());
 				if let Some(f) = c.fields.first_mut() { let k = r.below(f.names.len()); f.names[k] = Some((*r.pick(&bad)).to_owned()); }
-				if let Some(m) = c.methods.first_mut() { let k = r.below(m.names.len()); m.names[k] = Some((*r.pick(&bad)).to_owned()); }
+				if let Some(m) = c.methods.first_mut() {
+					let k = r.below(m.names.len()); m.names[k] = Some((*r.pick(&bad)).to_owned());
+					if let Some(p) = m.params.first_mut() { let k = r.below(p.names.len()); p.names[k] = Some((*r.pick(&bad)).to_owned()); }
+				}
 			}
 			out.stats.hit("spoil:name");
 		}
-		4 => {
+		2 => {
 			// one field per class only: two fields with one name would get one key, which an IndexMap cannot hold
 			for c in &mut g.classes { if let Some(f) = c.fields.first_mut() { f.desc = (*r.pick(&["", "I\tJ", "L\n;", "x\r", "not a desc", "\u{1f600}"])).to_owned(); } }
 			out.stats.hit("spoil:desc");
@@ -194,6 +202,7 @@ fn gen(r: &mut Rng, tier: Tier, out: &mut Out) {
 		let n = r.range(2, 4);
 		let cfg = cfg_for(r, n);
 		let mut g = gen_mappings(r, &cfg);
+		if r.chance(1, 3) { hard_docs(&mut g, r, out); }
 		let spoiled = r.chance(1, 7);
 		if spoiled { spoil(&mut g, r, out); }
 		out.stats.hit(&format!("n:{n}"));
@@ -211,6 +220,7 @@ fn gen(r: &mut Rng, tier: Tier, out: &mut Out) {
 		if g.classes.iter().any(|c| c.names.iter().flatten().any(|x| x.chars().any(|ch| ch as u32 > 0xffff))) { out.stats.hit("has:non-bmp"); }
 		let m = g.to_sexp();
 		out.op("oracle-rt", &[m.clone()]);
+		if spoiled || r.chance(1, 4) { out.op("oracle-write-rejects", &[m.clone()]); }
 		match i % 3 {
 			0 => out.op("tiny-write", &[m.clone()]),
 			1 => out.op("tiny-rt", &[m.clone()]),
@@ -233,11 +243,11 @@ fn gen(r: &mut Rng, tier: Tier, out: &mut Out) {
 			0 => out.op("oracle-read-counts", &[Sexp::nat(nn), Sexp::str(&text)]),
 			_ => out.op("oracle-read-wf", &[Sexp::nat(nn), Sexp::str(&text)]),
 		}
-		// a name that is not UTF-8 (lone surrogate): `write` panics
+		// a name that is not UTF-8 (lone surrogate): `write` refuses it (it used to panic)
 		if r.chance(1, 12) {
 			if let Some(ms) = with_surrogate(&m, r) {
 				out.stats.hit("has:surrogate");
-				out.op(*r.pick(&["tiny-write", "tiny-rt", "oracle-rt", "oracle-fixed-point"]), &[ms]);
+				out.op(*r.pick(&["tiny-write", "tiny-rt", "oracle-rt", "oracle-write-rejects"]), &[ms]);
 			}
 		}
 		// two sibling lines with one key
@@ -270,7 +280,9 @@ fn gen(r: &mut Rng, tier: Tier, out: &mut Out) {
 		"tiny\t2\t0\ta\tb\nc\tA\tB\n\tm\t()V\t<init>\t<init>\n\tm\t()V\t<clinit>\t<x>\n", "tiny\t2\t0\ta\tb\nx\n\tc\tchild of ignored\n",
 		"tiny\t2\t0\ta\tb\nc\tA\tB\n\tc\t\n", "tiny\t2\t0\ta\tb\nc\tA\tB\n\tc\n", "tiny\t2\t0\ta\tb\nc\tA\tB\n\tc\ta\tb\n",
 		"tiny\t2\t0\ta\tb\nc\tA\tB\r\n\tc\tdoc\r\r\n", "tiny\t2\t0\ta\tb\nc\tA\tB\n\tf\n", "tiny\t2\t0\ta\tb\nc\tA\tB\n\tf\t\tx\ty\n", "tiny\t2\t0\ta\tb\nc\tA\tB\n\tm\t()V\n",
-		"tiny\t2\t0\ta\tb\nc\tp/A$B$C\t$\n\tf\tLp/A$B;\t$\t$$\n"] {
+		"tiny\t2\t0\ta\tb\nc\tp/A$B$C\t$\n\tf\tLp/A$B;\t$\t$$\n",
+		"tiny\t2\t0\ta\tb\nc\tA\tB\n\tc\t\\\\n \\x \\t\\r\\n \\\\\\ end\\\n", "tiny\t2\t0\ta\tb\nc\tA\tB\n\tc\t\\\n", "tiny\t2\t0\ta\tb\nc\tA\tB\n\tc\t\\\\\\\n",
+		"tiny\t2\t0\ta\tb\nc\tA\\tB\tB\\n\n"] {
 		for n in 2..=3 {
 			out.op("tiny-read", &[Sexp::nat(n), Sexp::str(t)]);
 			out.op("oracle-read-counts", &[Sexp::nat(n), Sexp::str(t)]);
@@ -406,11 +418,6 @@ fn names_ok<const N: usize, T: AsRef<JavaStr>>(names: &Names<N, T>, valid: fn(&J
 	arr.iter().all(|o| match o { None => true, Some(t) => { let s = t.as_ref(); !s.is_empty() && cell_ok(s) && valid(s) } })
 }
 
-/// `bsn`: also refuse the two characters backslash, `n` (domain of the round trip); without: domain of the fixed point
-fn doc_ok(d: &Option<JavadocMapping>, bsn: bool) -> bool {
-	match d { None => true, Some(JavadocMapping(s)) => !s.contains('\t') && !s.ends_with('\r') && !(bsn && s.contains("\\n")) }
-}
-
 fn first<const N: usize, T>(names: &Names<N, T>) -> Option<&T> { let arr: &[Option<T>; N] = names.into(); arr.first().and_then(|x| x.as_ref()) }
 
 /// map invariants: every key is the key derived from its entry
@@ -421,14 +428,28 @@ fn wf<const N: usize>(m: &M<N>) -> bool {
 			&& me.parameters.iter().all(|(k, p)| k.index == p.info.index)))
 }
 
-/// the proved domains: of the round trip (`bsn`, mirror of `Tiny.writable`) and of the fixed point (mirror of `Tiny.writableE`)
-fn writable<const N: usize>(m: &M<N>, bsn: bool) -> bool {
+/// the proved domain of the round trip and of the fixed point (mirror of `Tiny.writable`); comments are arbitrary
+fn writable<const N: usize>(m: &M<N>) -> bool {
 	let ns: &[String; N] = (&m.info.namespaces).into();
 	N >= 2 && ns.iter().all(|s| !s.is_empty() && str_cell_ok(s)) && m.javadoc.is_none() && wf(m)
-		&& m.classes.values().all(|c| names_ok(&c.info.names, ObjClassName::is_valid) && doc_ok(&c.javadoc, bsn)
-			&& c.fields.values().all(|f| cell_ok(f.info.desc.as_inner()) && names_ok(&f.info.names, FieldName::is_valid) && doc_ok(&f.javadoc, bsn))
-			&& c.methods.values().all(|me| cell_ok(me.info.desc.as_inner()) && names_ok(&me.info.names, MethodName::is_valid) && doc_ok(&me.javadoc, bsn)
-				&& me.parameters.values().all(|p| names_ok(&p.info.names, ParameterName::is_valid) && doc_ok(&p.javadoc, bsn))))
+		&& m.classes.values().all(|c| names_ok(&c.info.names, ObjClassName::is_valid)
+			&& c.fields.values().all(|f| cell_ok(f.info.desc.as_inner()) && names_ok(&f.info.names, FieldName::is_valid))
+			&& c.methods.values().all(|me| cell_ok(me.info.desc.as_inner()) && names_ok(&me.info.names, MethodName::is_valid)
+				&& me.parameters.values().all(|p| names_ok(&p.info.names, ParameterName::is_valid))))
+}
+
+fn names_writable<const N: usize, T: AsRef<JavaStr>>(names: &Names<N, T>) -> bool {
+	let arr: &[Option<T>; N] = names.into();
+	arr.iter().all(|o| match o { None => true, Some(t) => cell_ok(t.as_ref()) })
+}
+
+/// what `write` must accept (mirror of `Tiny.writeOk`): every namespace, present name and descriptor is UTF-8 without TAB, LF, CR
+fn write_ok<const N: usize>(m: &M<N>) -> bool {
+	let ns: &[String; N] = (&m.info.namespaces).into();
+	ns.iter().all(|s| str_cell_ok(s)) && m.classes.values().all(|c| names_writable(&c.info.names)
+		&& c.fields.values().all(|f| cell_ok(f.info.desc.as_inner()) && names_writable(&f.info.names))
+		&& c.methods.values().all(|me| cell_ok(me.info.desc.as_inner()) && names_writable(&me.info.names)
+			&& me.parameters.values().all(|p| names_writable(&p.info.names))))
 }
 
 fn sorted_by<K: std::hash::Hash + Eq, V>(map: IndexMap<K, V>, cmp: impl Fn(&(K, V), &(K, V)) -> std::cmp::Ordering) -> IndexMap<K, V> {
@@ -467,7 +488,7 @@ fn by_key<const N: usize>(m: &M<N>) -> M<N> {
 
 enum Written { Text(String), Panic, Err }
 
-/// `write_vec` under `catch_unwind` (a name that is not UTF-8 makes `std::io::Write::write_fmt` panic)
+/// `write_vec` under `catch_unwind` (before fix 4f3eba6 a name that was not UTF-8 made `std::io::Write::write_fmt` panic)
 fn write_text<const N: usize>(m: &M<N>) -> Written {
 	match std::panic::catch_unwind(std::panic::AssertUnwindSafe(|| quill::tiny_v2::write_vec(m))) {
 		Err(_) => Written::Panic,
@@ -587,7 +608,7 @@ fn exec(op: &str, args: &[Sexp]) -> Ans {
 				match quill::tiny_v2::read::<N, NsMarker>(t.as_bytes()) { Err(_) => Ans::pass(), Ok(_) => Ans::fail("accepted") }
 			}, Ans::BadOp("n".into()))
 		}
-		("tiny-write" | "tiny-rt" | "oracle-rt" | "oracle-fixed-point", [m]) => {
+		("tiny-write" | "tiny-rt" | "oracle-rt" | "oracle-fixed-point" | "oracle-write-rejects", [m]) => {
 			let n = tr!(mapcodec::ns_count(m));
 			with_n!(n, N, {
 				let m: M<N> = tr!(from_sexp(m));
@@ -597,8 +618,14 @@ fn exec(op: &str, args: &[Sexp]) -> Ans {
 						let t = match write_text(&m) { Written::Text(t) => t, Written::Panic => return Ans::ok_tag("panic"), Written::Err => return Ans::err() };
 						match quill::tiny_v2::read::<N, NsMarker>(t.as_bytes()) { Ok(r) => Ans::Ok(to_sexp(&r)), Err(_) => Ans::err() }
 					}
+					"oracle-write-rejects" => match (write_text(&m), write_ok(&m)) {
+						(Written::Panic, _) => Ans::fail("panic"),
+						(Written::Text(_), true) | (Written::Err, false) => Ans::pass(),
+						(Written::Text(_), false) => Ans::fail("accepted"),
+						(Written::Err, true) => Ans::fail("refused"),
+					},
 					_ => {
-						if !writable(&m, op == "oracle-rt") { return Ans::out_of_domain(); }
+						if !writable(&m) { return Ans::out_of_domain(); }
 						let t = match write_text(&m) { Written::Text(t) => t, Written::Panic => return Ans::fail("write_panic"), Written::Err => return Ans::fail("write_err") };
 						let Ok(r) = quill::tiny_v2::read::<N, NsMarker>(t.as_bytes()) else { return Ans::fail("read_err") };
 						if op == "oracle-rt" {
